@@ -8,20 +8,21 @@ from vlib.sx import Pair
 META = {
     "id": "C17",
     "level": "proof",
-    "technique": "Coq theorems (instance_of_spec, aggregate_generalizes, merge_generalizes, merge_all_generalizes, may_invalidate_conservative / _sound_outside_f1 / _fixed_conservative / _refuted, combine_comm, combine_no_more, with_priorities_comm) over Gallina models of AntiUnifier / merge_into_guidance / is_trivial / MayInvalidate / Solution::combine / with_priorities + differential correspondence through hook H2 + the property evaluated on the implementation's own outputs with the verified matcher instance_of",
-    "level_text": "Machine-checked proofs (Coq 8.16, axiom-free) that the model of chalk's anti-unifier and of merge_into_guidance only generalises (every merged answer is an instance of the result, for pairs and sequences), that the model of the may-invalidate check of the code as it is never wrongly says 'cannot change' outside the recorded class F1 (and that the model of the repaired check never does), that Solution::combine is commutative and never claims more than either candidate, and that with_priorities is commutative. 'Instance' is decided by an executable matcher proved equivalent to 'exists a substitution' w.r.t. the C25 model of chalk's Subst::apply. The models are tied to /repo on every run: real AntiUnifier::aggregate_generic_args, merge_into_guidance, is_trivial, Substitution::may_invalidate, Solution::combine, with_priorities, calculate_inputs are called through hook H2 on an exhaustive head-constructor sweep and on generated inputs and compared with the models evaluated in Coq; in addition the property itself is evaluated on the implementation's outputs.",
-    "level_note": "Trusted: Coq kernel; hand-written models coq/Agg/*.v (tied by correspondence on generated inputs of bounded size only); harness conversion sexp<->chalk_ir (harness/src/ir.rs, bin/agg.rs). Const types are usize (ChalkIr); substitutions compared have equal kinds position by position. make_solution's answer loop itself is not modelled (its three ingredients are). Finding F1 is a recorded class (guidance repeating a variable where the unchanged and the repaired model differ); the repair is kept as corpus/C17/f1_proposed_fix.patch because the pinned suite blesses the defective output (tests/test/projection.rs nested_proj_eq_nested_proj_should_flounder).",
+    "technique": "Coq theorems (instance_of_spec, aggregate_generalizes, merge_generalizes, merge_all_generalizes, make_solution_covers / _refuted, may_invalidate_conservative / _sound_outside_f1 / _fixed_conservative / _refuted, combine_comm, combine_no_more, with_priorities_comm) over Gallina models of AntiUnifier / merge_into_guidance / is_trivial / MayInvalidate / Solution::combine / with_priorities + differential correspondence through hook H2 + the property evaluated on the implementation's own outputs with the verified matcher instance_of",
+    "level_text": "Machine-checked proofs (Coq 8.16, axiom-free) that the model of chalk's anti-unifier and of merge_into_guidance only generalises (every merged answer is an instance of the result, for pairs and sequences), that the model of the may-invalidate check of the code as it is never wrongly says 'cannot change' outside the recorded class F1 (and that the model of the repaired check never does), that Solution::combine is commutative and never claims more than either candidate, and that with_priorities is commutative. 'Instance' is decided by an executable matcher proved equivalent to 'exists a substitution' w.r.t. the C25 model of chalk's Subst::apply. The models are tied to /repo on every run: real AntiUnifier::aggregate_generic_args, merge_into_guidance, is_trivial, Substitution::may_invalidate, AggregateOps::make_solution (over scripted answer streams), Solution::combine, with_priorities, calculate_inputs are called through hook H2 on an exhaustive head-constructor sweep and on generated inputs and compared with the models evaluated in Coq; in addition the property itself is evaluated on the implementation's outputs.",
+    "level_note": "Trusted: Coq kernel; hand-written models coq/Agg/*.v (tied by correspondence on generated inputs of bounded size only); harness conversion sexp<->chalk_ir (harness/src/ir.rs, bin/agg.rs). Const types are usize (ChalkIr); substitutions compared have equal kinds position by position. Finding F1 is a recorded class (guidance repeating a variable where the unchanged and the repaired model differ); the repair is kept as corpus/C17/f1_proposed_fix.patch because the pinned suite blesses the defective output (tests/test/projection.rs nested_proj_eq_nested_proj_should_flounder).",
     "design_ref": "DESIGN.md section 4 C17, section 5 F1, section 7 H2",
     "assumptions": ["const types are usize (ChalkIr lowering); the anti-unifier itself does not compare const types",
                     "substitutions merged / compared belong to the same goal: equal length and kinds position by position",
                     "combine / with_priorities commutativity is claimed for two solutions of one goal: two trivially-true solutions are identical",
-                    "panic sites are compared as panic / no panic only"],
+                    "panic sites are compared as panic / no panic only",
+                    "answers handed to make_solution are canonical (binders = the variables used, in order of first occurrence), as every real answer is"],
     "quick_s": 75, "thorough_s": 600,
 }
 
 F1_CLASS = "F1-guidance-repeats-var"
 N = irgen.node
-IMPORTS = ["Ir.Syntax", "Ir.Fold", "Agg.Instance", "Agg.AntiUnify", "Agg.MayInv", "Agg.Solution", "Agg.Check"]
+IMPORTS = ["Ir.Syntax", "Ir.Fold", "Agg.Instance", "Agg.AntiUnify", "Agg.MayInv", "Agg.Solution", "Agg.Loop", "Agg.Check"]
 U8 = N(("HScalar", ("Uint", "U8")))
 I32 = N(("HScalar", ("Int", "I32")))
 U32 = N(("HScalar", ("Uint", "U32")))
@@ -620,6 +621,92 @@ def stage_may_invalidate(ctx, st, G):
     ctx.cov["families"].setdefault("model==impl:may_invalidate", {"cases": len(pairs), "nontrivial": nfalse})["mismatches"] = len(bad)
 
 
+def canon_cs(values):
+    """Canonical form of a flat pattern list: binders are exactly the variables used, numbered by first occurrence
+    (what every real answer looks like; make_solution re-canonicalises its first answer through Canonical::map)."""
+    m, bs = {}, []
+
+    def go(t):
+        if t[0] in ("Var", "CVar"):
+            i = t[3] if t[0] == "Var" else t[2]
+            if i not in m:
+                m[i] = len(bs)
+                bs.append(Pair(KINDS3["TLC".index(gkind(t))], 0))
+            return ("Var", t[1], 0, m[i]) if t[0] == "Var" else ("CVar", 0, m[i], USIZE)
+        if irgen.head_name(t) in ("HDyn", "HFnPtr"):
+            return t
+        return ("Node", t[1], [go(c) for c in t[2]])
+    vals = [go(t) for t in values]
+    return Pair(bs, vals)
+
+
+def stage_make_solution(ctx, st, G):
+    """AggregateOps::make_solution over scripted answer streams."""
+    r = ctx.rng
+    scripts = []
+    for _ in range(ctx.n(350, 8000)):
+        root, first, answers = gen_answers(ctx, G, r.randint(1, 3))
+        if any(gkind(t) == "L" for t in first) and r.random() < 0.7:
+            continue   # lifetimes make every check say "may change"; keep a few
+        evs = [("EAnswer", canon_cs(first), [], r.random() < 0.15)]
+        for a in answers:
+            x = r.random()
+            if x < 0.06:
+                evs.append("EFloundered")
+            elif x < 0.1:
+                evs.append("EQuantum")
+            evs.append(("EAnswer", cs(a), [], r.random() < 0.1))
+        if r.random() < 0.1:
+            evs = evs[:1]
+        if r.random() < 0.04:
+            evs.insert(0, r.choice(["EFloundered", "EQuantum"]))
+        strands = []
+        if r.random() < 0.3:
+            env = {}
+            strands.append([G.instantiate(t, env, consistent=r.random() < 0.6) for t in canon_cs(first)[1]])
+        scripts.append((root, evs, strands))
+    f1 = [N(("HAdt", 1), [("Var", "STy", 0, 0)]), ("Var", "STy", 0, 0)]
+    r2 = [Pair(("VTy", "General"), 0)] * 2
+    scripts.append((r2, [("EAnswer", canon_cs(f1), [], False), ("EAnswer", cs([N(("HAdt", 1), [I32]), U32]), [], False)], []))          # F1
+    scripts.append((r2, [("EAnswer", canon_cs(f1), [], False), ("EAnswer", cs([N(("HAdt", 1), [I32]), I32]), [], False)], []))
+    scripts.append((r2, [("EAnswer", canon_cs(f1), [], False)], [[N(("HAdt", 1), [I32]), U32]]))
+    scripts.append(([], [], []))
+    cases = [("MakeSolution", root, evs, strands) for root, evs, strands in scripts]
+    outs = hrun(cases)
+    for c, o in zip(cases, outs):
+        ctx.count("make_solution", sx.to_sexp(list(c[1:])), nontrivial=not is_panic(o) and len(c[2]) > 1)
+    ctx.sample({"op": "MakeSolution", "script": sx.to_sexp(list(cases[-4][1:]))[:500], "real": sx.to_sexp(outs[-4])[:300]})
+    TY = "((binders * list event) * list (list tm)) * res (option solution)"
+    inp = [Pair(Pair(Pair(root, evs), strands), okres(o)) for (root, evs, strands), o in zip(scripts, outs)]
+    ver = coq_verdicts(ctx, "ms_v", "chk_ms_verdict", TY, inp)
+    known = 0
+    for (root, evs, strands), o, v in zip(scripts, outs, ver):
+        if v == 0:
+            continue
+        if v == 1:
+            known += 1
+            f = ctx.match_known(None, F1_CLASS)
+            if f is not None:
+                ctx.known_finding(f, "make_solution over the answers %s returns %s" % (sx.to_sexp(evs)[:300], sx.to_sexp(o)[:200]))
+                continue
+        st.violation({"kind": "property", "law": "make_solution_covers", "op": "MakeSolution", "root": sx.to_sexp(root), "events": sx.to_sexp(evs), "strands": sx.to_sexp(strands),
+                      "real_output": sx.to_sexp(o), "in_known_class_F1": v == 1,
+                      "what": "make_solution returns definite guidance of which an answer of the stream is not an instance"})
+    ctx.cov["make_solution_known_class_cases"] = known
+    exp = [(x[0], x[1]) for x in inp]
+    bad_old = coq_bad(ctx, "ms_old", "(chk_ms MOld)", "(rs_eqb osol_eqb)", "(binders * list event) * list (list tm)", "res (option solution)", exp)
+    mode, bad = "unchanged", bad_old
+    if bad_old:
+        bad_fix = coq_bad(ctx, "ms_fix", "(chk_ms MFix)", "(rs_eqb osol_eqb)", "(binders * list event) * list (list tm)", "res (option solution)", exp)
+        if not bad_fix:
+            mode, bad = "repaired", []
+        else:
+            mode, bad = "neither", (bad_old if len(bad_old) <= len(bad_fix) else bad_fix)
+    ctx.cov["make_solution_model"] = mode
+    st.mism["make_solution"] = [cases[i] for i in bad]
+    ctx.cov["families"].setdefault("model==impl:make_solution", {"cases": len(cases), "nontrivial": len(cases)})["mismatches"] = len(bad)
+
+
 def solution_pool():
     b0, b1 = [], [Pair(("VTy", "General"), 0)]
     b2 = [Pair(("VTy", "General"), 0), Pair(("VTy", "General"), 0)]
@@ -799,6 +886,7 @@ def run_all(ctx):
     timed("may_invalidate", stage_may_invalidate, ctx, st, G)
     timed("aggregate", stage_aggregate, ctx, st, G)
     timed("merge", stage_merge, ctx, st, G)
+    timed("make_solution", stage_make_solution, ctx, st, G)
     timed("is_trivial", stage_is_trivial, ctx, st, G)
     pool = timed("combine", stage_combine, ctx, st)
     timed("with_priorities", stage_with_priorities, ctx, st, pool)
@@ -808,7 +896,8 @@ def run_all(ctx):
 def run(ctx):
     thms = ["instance_of_spec", "instance_of_list_spec", "aggregate_generalizes", "merge_generalizes", "merge_all_generalizes",
             "may_invalidate_conservative", "may_invalidate_refuted", "may_invalidate_sound_outside_f1", "f1_class_repeats_var",
-            "may_invalidate_fixed_conservative", "combine_comm", "combine_no_more", "with_priorities_comm"]
+            "may_invalidate_fixed_conservative", "merge_never_repeats", "make_solution_covers", "make_solution_refuted",
+            "combine_comm", "combine_no_more", "with_priorities_comm"]
     ok, why = ctx.proof_stage("Props.C17", thms, extra_targets=["Agg/Check.vo"])
     core.build_harness(bins=["agg"])
     ctx.cov["rule"] = ("exhaustive ordered sweep over representatives of every TyKind (several per head: same/different name, arguments, mutability; "
@@ -861,6 +950,14 @@ def replay(ctx, obj):
         good = coq_bools(ctx, "replay", "chk_inst_all", "list (list tm) * list tm", [Pair(vals, o[-1][1])])[0]
         print("every answer is an instance of the final guidance:", good)
         return 0 if good else 1
+    if op == "MakeSolution":
+        c = ("MakeSolution", P(obj["root"]), P(obj["events"]), P(obj["strands"]))
+        o = hrun([c])[0]
+        print("real:", sx.to_sexp(o))
+        v = coq_verdicts(ctx, "replay", "chk_ms_verdict", "((binders * list event) * list (list tm)) * res (option solution)",
+                         [Pair(Pair(Pair(c[1], c[2]), c[3]), okres(o))])[0]
+        print("verdict (0 holds, 1 fails in class F1, 2 fails):", v)
+        return 1 if v == 2 else 0
     if op == "Combine":
         a, b = P(obj["a"]), P(obj["b"])
         o1, o2 = hrun([("Combine", a, b), ("Combine", b, a)])
